@@ -804,3 +804,23 @@ func c13Isolation(r reporter) {
 		r.Ok("C13/isolation/shared-table/os.Exit")
 	}
 }
+
+func jsonMarshal(v any) ([]byte, error) { return json.Marshal(v) }
+
+// replayCollector feeds a child's verdicts into the run.
+func replayCollector(r *core.Run, res *core.Result) {
+	var col collector
+	json.Unmarshal([]byte(res.Data["report"]), &col)
+	for i, c := range col.Oks {
+		r.Ok(c)
+		if i%997 == 0 {
+			r.Sample(map[string]any{"cell": c, "verdict": "agrees with the reference"})
+		}
+	}
+	for _, f := range col.Fails {
+		r.Fail(f.Cell, f.W)
+	}
+	for k, v := range col.Extra {
+		r.Extra[k] = v
+	}
+}
